@@ -251,14 +251,48 @@ PATHO = {
 # regex backtracking blow-ups: CVE-2021-33503 is "@"*n followed by something that is not a host)
 _UNITS = ["@", "a@", "a:b@", ":", "a:", ".", "a.", "1.", "%", "%2", "%41", "[", "]", "1", "0", "/", "\\", "?", "a"]
 _TAILS = ["[", ":x", "]", "@", "\n", "\\", "%zz", "host:x", " ", ":65536"]
+# the same shape inside an IPv6 zone id (unreserved run / escapes, then something that invalidates the literal)
+for _u in ("a", "a.", "%41", "a%41", "-", "~"):
+    for _t in ("!]", " ]", "%4]", "%zz]", "", "]x", "^", "]:x"):
+        PATHO[f"[::1%25({_u})*n{_t}"] = (lambda n, _u=_u, _t=_t: "http://[::1%25" + _u * n + _t)
+        PATHO[f"[fe80::1%({_u})*n{_t}"] = (lambda n, _u=_u, _t=_t: "https://[fe80::1%" + _u * n + _t)
 for _pre in ("http://", "https://", ""):
     for _u in _UNITS:
         for _t in _TAILS:
             PATHO[f"{_pre}({_u})*n{_t}"] = (lambda n, _pre=_pre, _u=_u, _t=_t: _pre + _u * n + _t)
 
 
+class _TooSlow(BaseException):
+    pass
+
+
+class _watchdog:
+    """wall-clock alarm around one parse_url call (shards are single-threaded processes; `re` checks for pending
+    signals while matching): an exponential matcher must not hang the check, it must be reported"""
+    def __init__(self, seconds):
+        self.seconds = seconds
+
+    def __enter__(self):
+        import signal, threading
+        self.armed = threading.current_thread() is threading.main_thread()
+        if self.armed:
+            def fire(signum, frame):
+                raise _TooSlow()
+            self.old = signal.signal(signal.SIGALRM, fire)
+            signal.setitimer(signal.ITIMER_REAL, self.seconds)
+        return self
+
+    def __exit__(self, *exc):
+        import signal
+        if self.armed:
+            signal.setitimer(signal.ITIMER_REAL, 0)
+            signal.signal(signal.SIGALRM, self.old)
+        return False
+
+
 class C14(Prop):
     id = "C14"
+    case_watchdog = None          # this property manages time itself (per-string alarms / schedule exploration)
     model = "url"
     rule = ("strings: exhaustive over {a,A,:,/,?,#,@,\\,%,[,],.,1,\\n} up to length 4 (quick; bare and behind "
             "'http://') / length 5 on that alphabet and length 6 on two 10-symbol alphabets (thorough); "
@@ -443,7 +477,7 @@ class C14(Prop):
         yield from self.chunked("seed", seeds)
         # running time first: cheap, and a deep (escalated) enumeration below may use up the time budget
         for pat in PATHO:
-            yield {"kind": "timing", "pat": pat, "ns": [1000, 10000, 100000]}
+            yield {"kind": "timing", "pat": pat, "ns": [16, 24, 1000, 10000, 100000]}
         if deep:
             yield from self.chunked("exh", self.exhaustive_strings(ALPHA14, 4, ["", "http://"]))
             yield from self.chunked("exh", (s for s in self.exhaustive_strings(ALPHA14, 5, ["", "http://"]) if len(s.replace("http://", "", 1) if s.startswith("http://") else s) == 5))
@@ -649,10 +683,24 @@ class C14(Prop):
         if kind == "timing":
             return self.exec_timing(case, res)
         if kind == "comp":
-            return self.exec_comp(case, res)
+            try:
+                with _watchdog(20.0 + 200e-6 * len(case.get("s") or "")):
+                    return self.exec_comp(case, res)
+            except _TooSlow:
+                self.add_failure(res, "superlinear-time:component", f"{case['op']}({(case.get('s') or '')[:80]!r}…) did not answer "
+                                 f"within 20 s + 200 µs/char ({len(case.get('s') or '')} chars)", case)
+                return [], []
         res.bump("strings:" + kind, len(case["ss"]))
         for s in case["ss"]:
-            self.check_string(s, case, res, lines, out)
+            # no single string may hang the check: a matcher that blows up is reported, not waited for
+            nl, no = len(lines), len(out)
+            try:
+                with _watchdog(20.0 + 200e-6 * len(s)):
+                    self.check_string(s, case, res, lines, out)
+            except _TooSlow:
+                del lines[nl:], out[no:]
+                self.add_failure(res, "superlinear-time:string", f"parse_url({s[:80]!r}…) and its re-parse did not answer within "
+                                 f"20 s + 200 µs/char ({len(s)} chars)", {"kind": "urls", "ss": [s]})
         return lines, out
 
     def exec_comp(self, case, res):
@@ -752,9 +800,12 @@ class C14(Prop):
                 # CPU time of this thread: a loaded machine must not look like a slow parser
                 t0 = time.thread_time()
                 try:
-                    parse_url(s)
+                    with _watchdog(30.0 + 200e-6 * len(s)):
+                        parse_url(s)
                 except LocationParseError:
                     pass
+                except _TooSlow:
+                    pass            # the envelope test below reports it (the CPU time spent is far beyond it)
                 except Exception as e:
                     res.failures.append(Failure(signature="unexpected-exception:" + type(e).__name__,
                                                 what=f"parse_url(<{pat} n={n}>) raised {type(e).__name__}", case=case))
